@@ -18,7 +18,7 @@ RULE = ('Runs are (a) precipitation worlds (stub binary/ternary 1-3 phases, real
         '(b) "static" runs: a short real Al-Zr trajectory, then at 3 sampled visited states the relations dG(x_alpha(g)) = g (three methods), monotonicity of x_alpha in g, '
         'sentinel monotonicity, sign change and monotonicity of dG around the planar solvus, agreement of the four driving-force methods. '
         '(c) the same static relations evaluated directly on Al-Cr / AL13CR2 (site ratios 13:2, formula unit != mole of atoms) at generated states. '
-        'Non-trivial = at least 5 sign checks with boundaries on both sides of R*, or at least 20 static relations evaluated; distinct = distinct record digest; '
+        'Half of the stub runs with boundary sites reset the same model, change an interfacial / grain-boundary energy and solve again. Non-trivial = at least 5 sign checks with boundaries on both sides of R*, or at least 20 static relations evaluated; distinct = distinct record digest; '
         'signature = (kind, backend, phases, sides seen).')
 ASSUMPTIONS = ['Sign test skipped where the critical radius is clamped to the minimum radius, below the binary stability cut and inside a band delta around R* '
                '(stub: 1e-6; real: 2% + 4 J/mol relative to the driving force, covering the documented 1 J/mol offset).',
